@@ -123,9 +123,23 @@ func init() {
 				cse.TimeoutMS = 60000
 				cs = append(cs, cse)
 			}
+			nft := 6
+			if tier == "thorough" {
+				nft = 40
+			}
+			for i := 0; i < nft; i++ {
+				p := c09Params{Interval: pick(r, 1, 2, 5, 20), StopAt: 20000 + r.IntN(20000)}
+				p.Spec = engine.Spec{Mode: "custom", CustomIntervalUS: p.Interval, Concurrency: pick(r, 64, 256), MaxDurationMS: 60000, IgnoreDropped: true}
+				p.Desc = fmt.Sprintf("fastticks interval=%dus c=%d stopAt=%d", p.Interval, p.Spec.Concurrency, p.StopAt)
+				cse := core.MkCase("C09", "fastticks", i, seed, p)
+				cse.Race = i%3 == 2
+				cse.Procs = pick(r, 4, 16)
+				cse.TimeoutMS = 90000
+				cs = append(cs, cse)
+			}
 			return cs
 		},
-		Kinds:  map[string]core.RunFunc{"cadence": c09Cadence, "first": c09First, "zero": c09Zero},
+		Kinds:  map[string]core.RunFunc{"cadence": c09Cadence, "first": c09First, "zero": c09Zero, "fastticks": c09FastTicks},
 		Floors: map[string]int64{"evaluations_checked": 300, "sum_checked_runs": 10, "first_runs": 4, "zero_runs": 4},
 	})
 }
@@ -301,4 +315,50 @@ func c09Zero(c *core.Case, o *core.Outcome) {
 	o.AddObs("zero_runs", 1)
 	o.Sig("zero:first=%d:procs=%d", first, c.Procs)
 	o.Sample = map[string]any{"case": p.Desc, "started": started.Load(), "dropped": dr}
+}
+
+// c09FastTicks: the shortest legal intervals with many idle workers and tiny tick values - every
+// evaluated value must still reach the pool unchanged: started + dropped == sum of the values
+// evaluated before the stop, exactly.
+func c09FastTicks(c *core.Case, o *core.Outcome) {
+	var p c09Params
+	c.Params(&p)
+	if c.Race {
+		p.StopAt /= 4
+	}
+	l := engine.NewLog()
+	ctx, cancel := context.WithCancel(context.Background())
+	defer cancel()
+	var started atomic.Int64
+	scenario := func(t *f1testing.T) f1testing.RunFn {
+		return func(t *f1testing.T) { started.Add(1) }
+	}
+	var sum, evals atomic.Int64
+	hooks := &engine.Hooks{CustomRate: func(k int, _ time.Time) int {
+		if k >= p.StopAt {
+			if k == p.StopAt {
+				cancel()
+			}
+			return 1
+		}
+		v := 1 + k%2
+		sum.Add(int64(v))
+		evals.Add(1)
+		return v
+	}}
+	r := engine.Execute(ctx, p.Spec, l, scenario, hooks, nil)
+	if r.NewErr != nil {
+		o.Inconc("harness: cannot build run: %v", r.NewErr)
+		return
+	}
+	su, fa, dr := resultCounts(r)
+	o.Events = evals.Load() + started.Load()
+	if int64(su+fa+dr) != sum.Load() || int64(su+fa) != started.Load() {
+		o.Violate("fastticks-sum:"+p.Desc, "%d evaluations before the stop requested %d iterations in total; %d started (%d bodies ran) and %d dropped = %d: a tick's value did not reach the pool unchanged (%s)", evals.Load(), sum.Load(), su+fa, started.Load(), dr, su+fa+dr, p.Desc)
+		return
+	}
+	o.AddObs("evaluations_checked", evals.Load())
+	o.AddObs("sum_checked_runs", 1)
+	o.Sig("fastticks:iv=%dus:c=%d:procs=%d:race=%v", p.Interval, p.Spec.Concurrency, c.Procs, c.Race)
+	o.Sample = map[string]any{"case": p.Desc, "evaluations": evals.Load(), "requested": sum.Load(), "started": su + fa, "dropped": dr}
 }
